@@ -57,6 +57,26 @@ CHECKS = {
         'library lacks. Which concrete arrays scikit-learn\'s check_array rejects, feature-count mismatch at predict time and '
         'array-like equivalence are NOT decided.'),
   note=TB),
+ 'C07': dict(
+  technique='static analysis: index-provenance (frame) abstract interpretation of the constraint generators (values-in-frame / layout-frame typing with composition rules), partial evaluation on the same_label flag, path-condition and structural rules, who-may-call rule for random draws',
+  text=('Decides for every label vector, parameter and seed: every index array returned by positive_negative_pairs/_pairs/'
+        'generate_knntriplets holds positions in the caller\'s array restricted to points with a known label (where/mask/fancy-index/'
+        'np.take/kneighbors/randint composition typed by frame); chunk ids are written only at known-label positions of the caller\'s '
+        'array; _pairs adds (a,b) with equal labels and a != b under same_label=True and different labels under False; pairs accumulate '
+        'in a set, at most n_constraints are returned, a warning is issued on every path with fewer, same_length truncates all four '
+        'arrays to one length; chunk draws are without replacement and removed from the pool before the next draw, infeasible '
+        'requests raise ValueError first; every draw is on check_random_state(random_state), no global generator. k-NN correctness, '
+        'combination counts and exact chunk counts are NOT decided.'),
+  note=TB),
+ 'C08': dict(
+  technique='static analysis: call-graph identity of the learner core, value-flow of hyper-parameters to the formals of the constraint generator, frame typing of the gather X[constraints], constructor forwarding (shared with C18)',
+  text=('Decides for the six *_Supervised estimators: fit runs on every path the very function the weakly-supervised fit runs; '
+        'constraints come from the documented Constraints generator with self.random_state / n_constraints (20*n_classes^2 when None) / '
+        'same_length (LSML) / n_chunks, chunk_size (RCA) / k_genuine, k_impostor (SCML) bound to the right formals; the labels given to '
+        'Constraints and the points gathered by the constraints come from one _prepare_inputs call and every gather uses indices into '
+        'that same array restricted to known labels (unlabeled points are absent); every constructor parameter reaches the shared core '
+        'with the caller\'s value. Numeric equality of the two fits follows from "same function, same arguments" and is not separately decided.'),
+  note=TB),
  'C17': dict(
   technique='static analysis: ownership/aliasing abstract interpretation (FRESH: view- vs copy-producing operations) of every in-place write construct, who-may-call / value-flow rule for random generators and seeded components, typestate (read-before-assign of fitted attributes, conditional assignment), transitive effect sets of query methods, closure free-variable freshness',
   text=('Decides over all call histories, for all 17 estimators: no global numpy.random/random call and every draw is on '
@@ -92,7 +112,7 @@ CHECKS = {
 
 _PENDING = 'check not built yet in this revision of /verif (see DESIGN.md section 9 build order); nothing is claimed for it'
 NOT_APPLICABLE = {p: _PENDING for p in
-  ['C07','C08','C09','C10','C11','C12','C13','C14','C15','C19']}
+  ['C09','C10','C11','C12','C13','C14','C15','C19']}
 NOT_APPLICABLE['C16'] = ('optimality of a cut-off over a labelled multiset of distances with ties is a property of runtime '
                          'values; no structural necessary condition of it exists that a sound static rule can name without '
                          'also firing on correct tie-aware rewrites; its parameter-validation sentence is checked as C06(7)')
